@@ -460,6 +460,12 @@ func (sc *c20Scenario) runPure(s *simrt.Sim, h *Hist) {
 		}
 		// NewCompData returns a value iff its arguments match the declared sum/product type
 		prod := fpgo.DefProduct(reflect.String, reflect.Int)
+		// a sum containing a sum, built from a caller-owned slice that the caller keeps
+		members := []fpgo.CompType{fpgo.DefSum(fpgo.DefProduct(reflect.Int), fpgo.DefProduct(reflect.String)), fpgo.DefProduct(reflect.Bool), fpgo.DefProduct(reflect.Float64)}
+		nested := fpgo.DefSum(members...)
+		if !members[0].Matches("s") || members[0].Matches(true) || !members[1].Matches(true) || members[1].Matches(1.5) || !members[2].Matches(1.5) {
+			bad("comp-data", "DefSum-modified-the-callers-slice", "after DefSum(members...) the caller's slice of member types no longer holds what the caller put there")
+		}
 		cases := []struct {
 			name string
 			t    fpgo.CompType
@@ -475,6 +481,12 @@ func (sc *c20Scenario) runPure(s *simrt.Sim, h *Hist) {
 			{"sum(product(string,int),nil) <- (a,1)", sum, []interface{}{"a", 1}, true},
 			{"sum(product(string,int),nil) <- (1)", sum, []interface{}{1}, false},
 			{"sum(product(string,int),nil) <- (nil,nil)", sum, []interface{}{nil, nil}, false},
+			{"sum(sum(int,string),bool,float64) <- (true)", nested, []interface{}{true}, true},
+			{"sum(sum(int,string),bool,float64) <- (1)", nested, []interface{}{1}, true},
+			{"sum(sum(int,string),bool,float64) <- (s)", nested, []interface{}{"s"}, true},
+			{"sum(sum(int,string),bool,float64) <- (1.5)", nested, []interface{}{1.5}, true},
+			{"sum(sum(int,string),bool,float64) <- (uint8 1)", nested, []interface{}{uint8(1)}, false},
+			{"sum(sum(int,string),bool,float64) <- (1,2)", nested, []interface{}{1, 2}, false},
 			{"nil type <- (nil)", fpgo.NilType, []interface{}{nil}, true},
 			{"nil type <- (0)", fpgo.NilType, []interface{}{0}, false},
 		}
